@@ -230,7 +230,7 @@ UNITS = [
     ("class_ref", "statement::class_ref(p);", "ClassRef", ["arg_value_list"], 4, None),
     ("arg_value_list", "statement::arg_value_list(p);", "ArgValueList", ["value"], 5, None),
     ("body", "statement::body(p);", "Body", ["body_item"], 4, None),
-    ("body_item", "statement::body_item(p);", "BodyItemOpt", ["field_def", "field_let", "defvar", "assert", "dump"], 2, None),
+    ("body_item", "let ret = statement::body_item(p);", "BodyItemOpt", ["field_def", "field_let", "defvar", "assert", "dump"], 2, None),
     ("field_def", "statement::field_def(p);", "FieldDef", ["type", "value"], 5, None),
     ("field_let", "statement::field_let(p);", "FieldLet", ["range_list", "value"], 7, "Let"),
     ("type", "type_::type_(p);", "Type", ["bits_type", "list_type"], 2, None),
@@ -240,7 +240,7 @@ UNITS = [
     ("inner_value", "value::inner_value(p);", "InnerValue", ["simple_value", "value_suffix"], 4, None),
     ("name_value", "value::name_value(p);", "NameValue", ["inner_name_value"], 5, None),
     ("inner_name_value", "value::inner_name_value(p);", "InnerNameValue", ["simple_value", "value_suffix"], 4, None),
-    ("value_suffix", "value::value_suffix(p);", "ValueSuffixOpt", ["range_list", "slice_elements"], 3, None),
+    ("value_suffix", "let ret = value::value_suffix(p);", "ValueSuffixOpt", ["range_list", "slice_elements"], 3, None),
     ("range_list", "value::range_list(p);", "RangeList", ["range_piece"], 5, None),
     ("range_piece", "value::range_piece(p);", "RangePiece", [], 4, None),
     ("slice_elements", "value::slice_elements(p);", "SliceElements", ["slice_element"], 5, None),
@@ -564,13 +564,23 @@ def gen():
         w("    let entry_after_error: bool = kani::any();")
         w("    l1::l2_set_after_error(&mut p, entry_after_error);")
         w("    let la0 = p.peek();")
-        w("    {")
-        w("        let p = &mut p;")
-        w(f"        {call}")
-        w("    }")
+        if call.startswith("let ret"):
+            w("    let ret = {")
+            w("        let p = &mut p;")
+            w(f"        {call[len('let ret = '):-1]}")
+            w("    };")
+            w("    assert!(!ret || l1::l2_consumed(&p) >= 1, \"C02: the rule returns true only after consuming a token (its callers loop on the result)\");")
+        else:
+            w("    {")
+            w("        let p = &mut p;")
+            w(f"        {call}")
+            w("    }")
         w(f"    let kf = {kfexpr};")
+        if call.startswith("let ret"):
+            w("    // callers loop on the result: `true` must mean that input was consumed")
+            w("    let consumed_before = 0;")
         w(f"    let (acc, viable) = accepted_{name}();")
-        w(f"    unit_judge(&mut p, acc, viable, {prog}, entry_after_error, la0, kf);")
+        w(f"    unit_judge(&mut p, acc, viable, {prog}, matches!(la0, {kinds_pat(FIRST[nt])}), entry_after_error, la0, kf);")
         w("    std::mem::forget(p);")
         w("}")
         gname = f"c04_gen_{name}"
